@@ -46,6 +46,34 @@ def rule_int_spellings(ctx, rep):
         it = Interp(a.cls.mod)
         same = a.cls is c.cls and it.to_str(a) == it.to_str(c) and all(_val(ctx, a, x) == _val(ctx, c, x) for x in attrs)
         rep.check(same, rule, f"'{line_a}' == '{line_b}'", where, it.to_str(c), it.to_str(a))
+    # every opcode of the specification that takes integer immediates (transaction index, array index, slot, depth, ...): the value 8 written
+    # as 8, 0x8 and 010 in every integer position gives the same instruction (class, fields, printed form)
+    from .optable import op_lines
+    pl = w.func(PARSE, "parse_line")
+    seen, n = set(), 0
+    for op, line, imms in op_lines(ctx):
+        kinds = op["imm"]
+        if op["mnemonic"] in seen or not any(k == "int" or (k == "field" and str(v).endswith(" 1")) for k, v in zip(kinds, imms)) or "0" in imms:
+            continue
+        seen.add(op["mnemonic"])
+        forms = {}
+        for sp in ("8", "0x8", "010"):
+            toks = [op["mnemonic"]]
+            for k, v in zip(kinds, imms):
+                if v in (None, ""):
+                    continue
+                toks.append(sp if k == "int" else (str(v)[:-1] + sp if k == "field" and str(v).endswith(" 1") else str(v)))
+            try:
+                o = w.call(pl, " ".join(toks))
+                forms[sp] = (o.cls.name, Interp(o.cls.mod).to_str(o), sorted((k, v) for k, v in o.fields.items() if isinstance(v, int) and not isinstance(v, bool)))
+            except PyRaise as e:
+                forms[sp] = ("RAISES", e.exc, " ".join(toks))
+        n += 1
+        bad = {sp: f for sp, f in forms.items() if f != forms["8"] or f[0] == "RAISES"}
+        rep.check(not bad, rule, f"{op['mnemonic']}: integer immediates 8 / 0x8 / 010", where, bad, {"8": forms["8"]},
+                  why="the same immediate written in another base is read as a different value", sample={"opcode": op["mnemonic"], "decimal form": forms["8"][1]})
+    rep.count("opcodes with integer immediates compared in three bases", n)
+    rep.require(n >= 25, f"only {n} opcodes with integer immediates found in the specification")
 
 
 def rule_named_constants(ctx, rep):
